@@ -1322,6 +1322,10 @@ pub struct HNode {
     pub name: HName,
     pub kind: HKind,
     pub perm: u32,
+    /// which bytes of the name are stored as `\xNN` escape sequences in the tree (the stored form
+    /// of a name is escaped; readers unescape it): bit 0 = `/`, bit 1 = `.`, bit 2 = NUL
+    #[serde(default)]
+    pub esc: u8,
 }
 
 #[derive(Debug, Clone, Serialize, Deserialize)]
@@ -1368,14 +1372,32 @@ fn hname(parent_names: bool) -> BoxedStrategy<HName> {
     proptest::strategy::Union::new_weighted(v).boxed()
 }
 
+fn esc_bits() -> BoxedStrategy<u8> {
+    prop_oneof![3 => Just(0u8), 2 => 1u8..8].boxed()
+}
+
+/// the stored (escaped) spelling of a name in which the selected bytes are written as `\xNN`
+fn stored_name(raw: &str, esc: u8) -> String {
+    let mut out = String::new();
+    for ch in raw.chars() {
+        match ch {
+            '/' if esc & 1 != 0 => out.push_str("\\x2f"),
+            '.' if esc & 2 != 0 => out.push_str("\\x2e"),
+            '\0' if esc & 4 != 0 => out.push_str("\\x00"),
+            c => out.push(c),
+        }
+    }
+    out
+}
+
 fn hleaf(parent_names: bool) -> BoxedStrategy<HNode> {
     let kind = prop_oneof![
         4 => content(64, 3000).prop_map(HKind::File),
         1 => Just(HKind::Dir(Vec::new())),
         1 => prop::sample::select(vec!["t", "../t", "/etc/passwd"]).prop_map(|t| HKind::Symlink(t.to_string())),
     ];
-    (hname(parent_names), kind, prop::sample::select(vec![0o644u32, 0o600, 0o755, 0o777, 0o4755, 0]))
-        .prop_map(|(name, kind, perm)| HNode { name, kind, perm })
+    (hname(parent_names), kind, prop::sample::select(vec![0o644u32, 0o600, 0o755, 0o777, 0o4755, 0]), esc_bits())
+        .prop_map(|(name, kind, perm, esc)| HNode { name, kind, perm, esc })
         .boxed()
 }
 
@@ -1385,9 +1407,10 @@ fn hnode(parent_names: bool) -> BoxedStrategy<HNode> {
         2 => (
             hname(parent_names),
             prop::collection::vec(hleaf(parent_names), 0..3),
-            prop::sample::select(vec![0o755u32, 0o700, 0o777])
+            prop::sample::select(vec![0o755u32, 0o700, 0o777]),
+            esc_bits(),
         )
-            .prop_map(|(name, ch, perm)| HNode { name, kind: HKind::Dir(ch), perm }),
+            .prop_map(|(name, ch, perm, esc)| HNode { name, kind: HKind::Dir(ch), perm, esc }),
     ]
     .boxed()
 }
@@ -1512,8 +1535,9 @@ fn hostile_entries(
             extended_attributes: Vec::new(),
         };
         let mut node = Node::new_node(OsStr::new(&safe), node_type, meta);
-        // the hostile name goes into the stored tree as it is (none of these need escaping)
-        node.name = n.name.render(s);
+        // the hostile name goes into the stored tree as it is, or with some of its bytes spelled as
+        // escape sequences (which every reader undoes before using the name)
+        node.name = stored_name(&n.name.render(s), n.esc);
         out.push((path.clone(), node, data));
         hostile_entries(children, &path, s, out);
     }
